@@ -26,12 +26,13 @@ RULE = ("adversarial (schema, query) texts, one isolated worker process each: fr
         "and on non-members, inline and through spreads; "
         "degenerate and broken schemas (SDL and JSON); truncations, byte flips and bracket insertions of valid documents and "
         "schemas; every failing schema / query file followed, in the same worker process (panics caught, as rustc does for "
-        "proc macros), by itself again and by valid inputs over the same and other paths. Non-trivial = every input except the "
+        "proc macros), by itself again and by valid inputs over the same and other paths; the CLI delivery of the generator "
+        "(output piped through rustfmt) on operations of 200 - 4,000 fields, command and formatter watched as one process tree. Non-trivial = every input except the "
         "unmodified controls; distinct by (schema text, query text)")
 
 CPU_LIMIT_S = 20.0
 FLOOR = {"class:spread-cycle": 60, "class:nesting": 20, "class:input-cycle": 15, "class:degenerate": 15, "class:schema-variant": 25,
-         "class:mutated-query": 300, "class:mutated-schema": 300, "exit:ok": 5, "exit:err": 100, "class:after-failure": 25, "after-failure-calls": 100, "class:abstract-cycle": 90}
+         "class:mutated-query": 300, "class:mutated-schema": 300, "exit:ok": 5, "exit:err": 100, "class:after-failure": 25, "after-failure-calls": 100, "class:abstract-cycle": 90, "class:cli-large-module": 6}
 
 
 def main(run):
@@ -179,8 +180,42 @@ def main(run):
                         "message": ((r.get("response") or {}).get("message") or r["stderr"])[:160]}, limit=10)
         run.extra["max_cpu_s"] = max(run.extra.get("max_cpu_s", 0), r["cpu_s"])
         run.extra["max_rss_kb"] = max(run.extra.get("max_rss_kb", 0), r["max_rss_kb"])
+    cli_large_modules(run, work)
     shutil.rmtree(work, ignore_errors=True)
     return run.finish(floor=FLOOR if run.tier == "quick" else {k: (v * 20 if k.startswith("class:mutated") else v) for k, v in FLOOR.items()})
+
+
+def cli_large_modules(run, work):
+    """code generation as the CLI delivers it: the generator's output piped through rustfmt. Modules of 50 KB - 1 MB (more than
+    a pipe holds) must come back; the command and the formatter it spawns are watched as one process tree"""
+    import subprocess
+    from .c02 import run_cli, DEADLOCK_RC
+    build.build_cli()
+    sp = os.path.join(work, "cli_schema.graphql")
+    open(sp, "w").write("type Query { v: Int s: String }\n")
+    for n_fields in (200, 1500, run.size(4000, 12000)):
+        for nofmt in (False, True):
+            d = os.path.join(work, "cli_%d_%d" % (n_fields, nofmt))
+            os.makedirs(d)
+            qp = os.path.join(d, "big.graphql")
+            open(qp, "w").write("query Big {\n" + "".join("  a%d: %s\n" % (k, "v" if k % 2 else "s") for k in range(n_fields)) + "}\n")
+            run.evaluated()
+            run.count("class:cli-large-module")
+            case = {"id": "cli-large-module:%d-fields%s" % (n_fields, "-unformatted" if nofmt else ""), "corpus": "clean", "class": "cli-large-module", "fields": n_fields, "no_formatting": nofmt}
+            try:
+                rc, so, se = run_cli(["generate", "--schema-path", sp, qp, "-o", d] + (["--no-formatting"] if nofmt else []), cwd=d, timeout=240)
+            except subprocess.TimeoutExpired:
+                run.inconclusive_case(case["id"], "wall-clock watchdog fired on a CLI invocation")
+                continue
+            if rc == DEADLOCK_RC:
+                run.violation(case, "deadlock: `graphql-client generate` on a %d-field operation never terminates: %s" % (n_fields, se[:160].strip()))
+            elif rc != 0 or not os.path.exists(os.path.join(d, "big.rs")):
+                run.violation(case, "`graphql-client generate` on a %d-field operation: exit %s, output %s: %s" % (n_fields, rc, "missing" if rc == 0 else "-", se[-160:]))
+            else:
+                run.held()
+                run.nontrivial("cli-large-module", n_fields, nofmt)
+                if n_fields >= 4000 and not nofmt:
+                    run.sample({"class": "cli-large-module", "fields": n_fields, "output_bytes": os.path.getsize(os.path.join(d, "big.rs"))}, limit=10)
 
 
 def judge_sequence(run, label, seqs, r):
